@@ -125,7 +125,7 @@ def _step(mask: int, op: int, sel: int, cvar: int, v: int, plsel: int, mut: int)
             CONN.ModifyInstance(passed, PropertyList=pl)
             if key not in model:
                 return 'ModifyInstance accepted for a missing instance'
-            if pl is not None and 'Nope' in pl:
+            if pl is not None and ('Nope' in pl or (cls == 'C_X' and pl)):
                 return 'ModifyInstance accepted an undeclared property in PropertyList'
             if cls != 'C_X':
                 names = None if pl is None else [p.lower() for p in pl]
@@ -196,8 +196,8 @@ def _step(mask: int, op: int, sel: int, cvar: int, v: int, plsel: int, mut: int)
         elif opname == 'ModifyInstance':
             if key not in model:
                 want = CIM_ERR_NOT_FOUND
-            elif plsel == 6:
-                want = CIM_ERR_INVALID_PARAMETER
+            elif plsel == 6 or (cls == 'C_X' and plsel in (1, 2, 3, 5)):
+                want = CIM_ERR_INVALID_PARAMETER        # PropertyList names a property the class does not declare (C_X has only the key)
             else:
                 return 'ModifyInstance refused for an existing instance with status %d' % code
         else:
